@@ -1,4 +1,6 @@
 import IceTie.AgentNomination
+import IceTie.AgentSuccess
+import IceTie.AgentSelector
 import IceProofs.AgentC20Trace
 import IceProofs.Sys2C20Rest
 import IceProofs.Sys2C20Vocab
@@ -947,5 +949,134 @@ example : Established (Sys.runs s0 preEarly) ∧ Exchange (Sys.runs s0 preEarly)
   decide
 
 end TwoAgentExamples
+
+/-! ## Tie: `HandleSuccessResponse` of both selectors (selection.go) is REGENERATED on every run (effect mode) and its
+decision is the one `Agent.handleSuccess` is built from -/
+
+/-- For ALL arguments the regenerated `controllingSelector.HandleSuccessResponse` is: `handleInboundBindingSuccess`;
+then — only with a known transaction, a symmetric response and an existing pair — `pair.state := Succeeded`, the
+`answeredNomination` rule (`ctlSuccessDecision`: a response to a valued nomination is followed iff its value is greater
+than every value already answered, and then recorded; a value-less nomination selects only when nothing is selected),
+`UpdateRoundTripTime` — in this order, nothing else -/
+theorem C20_code_controlling_success_response (found symmetric hasPair useCand hasSelected hasValue : Bool)
+    (value : UInt32) (hasAnswered : Bool) (answered : UInt32) :
+    IceGen.controllingSelector_HandleSuccessResponse found symmetric hasPair useCand hasSelected hasValue value
+        hasAnswered answered
+      = IceTie.AgentSuccess.eTake :: (if found && symmetric && hasPair then
+          IceTie.AgentSuccess.eSucceeded ::
+            (IceTie.AgentSuccess.ctlEffs
+              (ctlSuccessDecision useCand (IceTie.AgentSuccess.optOf hasValue value)
+                (IceTie.AgentSuccess.optOf hasAnswered answered) hasSelected) hasValue value
+             ++ [IceTie.AgentSuccess.eRTT])
+        else []) :=
+  IceTie.AgentSuccess.ctlHandleSuccess_tie found symmetric hasPair useCand hasSelected hasValue value hasAnswered answered
+
+/-- For ALL arguments the regenerated `controlledSelector.HandleSuccessResponse` is: `handleInboundBindingSuccess`; then
+— same gate — `pair.state := Succeeded`; on a pair with a deferred nomination the switch `cldSuccessDecision` (a deferred
+VALUE is ignored when a greater one has been accepted since, otherwise it wins whatever the priorities; a deferred
+nomination without a value never moves the selection once a value has been accepted, otherwise the priority rule) and
+the clearing of the deferred nomination; `UpdateRoundTripTime` -/
+theorem C20_code_controlled_success_response (found symmetric hasPair nomOnSuccess hasSelected samePair hasValue : Bool)
+    (value : UInt32) (hasLast : Bool) (last : UInt32) (needsPrio : Bool) (selectedPrio pairPrio : UInt64) :
+    IceGen.controlledSelector_HandleSuccessResponse found symmetric hasPair nomOnSuccess hasSelected samePair hasValue
+        value hasLast last needsPrio selectedPrio pairPrio
+      = IceTie.AgentSuccess.eTake :: (if found && symmetric && hasPair then
+          IceTie.AgentSuccess.eSucceeded :: ((if nomOnSuccess then
+              (if cldSuccessDecision (IceTie.AgentSuccess.optOf hasValue value) (IceTie.AgentSuccess.optOf hasLast last)
+                    hasSelected samePair needsPrio selectedPrio.toNat pairPrio.toNat
+                then [IceTie.AgentSuccess.eSelect] else []) ++ IceTie.AgentSuccess.eClear
+            else []) ++ [IceTie.AgentSuccess.eRTT])
+        else []) :=
+  IceTie.AgentSuccess.cldHandleSuccess_tie found symmetric hasPair nomOnSuccess hasSelected samePair hasValue value
+    hasLast last needsPrio selectedPrio pairPrio
+
+/-- the model's handler written with the same stand-alone decisions (no hypothesis, every state): take the transaction,
+the symmetry test, find the pair, mark it Succeeded, `successDecide` (= `ctlSuccessDecision` / `cldSuccessDecision` on the
+agent's fields), count the response -/
+theorem C20_success_inline (a : Agent) (now : Nat) (m : Msg) (l r : Cand) (src : Nat) :
+    a.handleSuccess now m l r src =
+      match (a.takePending now m.tid).2 with
+      | none => ((a.takePending now m.tid).1, [])
+      | some pd =>
+        if !(pd.net == l.net && pd.dest == src && pd.src == l.addr) then ((a.takePending now m.tid).1, [])
+        else
+          match (a.takePending now m.tid).1.findPair l r with
+          | none => ((a.takePending now m.tid).1, [])
+          | some p =>
+            let d := successDecide ((a.takePending now m.tid).1.modPair p.id fun p =>
+                { p with state := .succeeded, gResp := true, gRespUC := p.gRespUC || pd.useCand }) pd p
+            (d.1.modPair p.id fun p => { p with respRecv := p.respRecv + 1 }, d.2) :=
+  handleSuccess_nf a now m l r src
+
+/-- non-vacuity: a response to renomination 6 after 5 was answered is followed and recorded, to 5 after 6 ignored; a
+deferred value 4 is dropped once 5 has been accepted, a deferred 5 wins against a higher-priority selection -/
+example : IceGen.controllingSelector_HandleSuccessResponse true true true true true true 6 true 5
+      = [Eff.call "takePending" [], Eff.set "pair.state" (Val.i 4), Eff.set "s.answeredNomination" (Val.n 6),
+         Eff.call "setSelectedPair" [], Eff.call "updateRTT" []]
+    ∧ IceGen.controllingSelector_HandleSuccessResponse true true true true true true 5 true 6
+      = [Eff.call "takePending" [], Eff.set "pair.state" (Val.i 4), Eff.call "updateRTT" []]
+    ∧ IceGen.controllingSelector_HandleSuccessResponse true false true true true true 6 true 5
+      = [Eff.call "takePending" []] := by decide
+example : IceGen.controlledSelector_HandleSuccessResponse true true true true true false true 4 true 5 true 9 1
+      = [Eff.call "takePending" [], Eff.set "pair.state" (Val.i 4),
+         Eff.set "pair.nominateOnBindingSuccess" (Val.b false), Eff.set "pair.deferredNominationValue" (Val.s "nil"),
+         Eff.call "updateRTT" []]
+    ∧ IceGen.controlledSelector_HandleSuccessResponse true true true true true false true 5 true 5 true 9 1
+      = [Eff.call "takePending" [], Eff.set "pair.state" (Val.i 4), Eff.call "setSelectedPair" [],
+         Eff.set "pair.nominateOnBindingSuccess" (Val.b false), Eff.set "pair.deferredNominationValue" (Val.s "nil"),
+         Eff.call "updateRTT" []] := by decide
+example : ctlSuccessDecision true (some 6) (some 5) true = (some 6, true) ∧ ctlSuccessDecision true (some 5) (some 5) true = (some 5, false)
+    ∧ ctlSuccessDecision true none (some 5) false = (some 5, true) ∧ cldSuccessDecision (some 4) (some 5) true false true 9 1 = false
+    ∧ cldSuccessDecision none (some 5) true false false 1 9 = false ∧ cldSuccessDecision none none true false true 1 9 = true := by decide
+
+/-- `controlledSelector.HandleBindingRequest` (regenerated in effect mode), for ALL arguments: find or add the pair, count the
+request; a nominated request goes through `shouldAcceptNomination` and a REJECTED one is only answered; otherwise a lite agent
+marks the pair Succeeded; on a succeeded pair `shouldSwitchSelectedPair` decides; on any other pair the nomination is deferred —
+unless it carries no value while a deferred value is waiting (fix dff2973); then the success response, a triggered check iff the
+agent is full and the pair has not succeeded or nothing is selected, the application's handler.  The model's `cldNominate` /
+`cldProceed` defer and ping by the same tests. -/
+theorem C20_code_controlled_binding_request (hasPair useCand hasNomAttr nomParseErr accepted lite : Bool) (pairState : Int64)
+    (switchOk hasDeferred hasSelected : Bool) :
+    IceGen.controlledSelector_HandleBindingRequest hasPair useCand hasNomAttr nomParseErr accepted lite pairState switchOk
+        hasDeferred hasSelected
+      = ((if hasPair then [] else [IceTie.AgentSelector.c "addPair"]) ++ IceTie.AgentSelector.c "updateRequestReceived" ::
+        (if IceTie.AgentSelector.nominated useCand hasNomAttr nomParseErr then
+          IceTie.AgentSelector.c "shouldAcceptNomination" ::
+          (if !accepted then [IceTie.AgentSelector.c "sendBindingSuccess"]
+           else
+             (if lite then [Eff.set "pair.state" (Val.i 4)] else []) ++
+             (if lite || pairState == 4 then (if switchOk then [IceTie.AgentSelector.c "setSelectedPair"] else [])
+              else if (hasNomAttr && !nomParseErr) || !hasDeferred then
+                [Eff.set "pair.nominateOnBindingSuccess" (Val.b true),
+                 Eff.set "pair.deferredNominationValue" (Val.s "nominationValue")]
+              else []) ++
+             IceTie.AgentSelector.c "sendBindingSuccess" ::
+             ((if !lite && (pairState != 4 || !hasSelected) then [IceTie.AgentSelector.c "pingCandidate"] else [])
+               ++ [IceTie.AgentSelector.c "customHandler"]))
+         else
+           IceTie.AgentSelector.c "sendBindingSuccess" ::
+           ((if !lite && (pairState != 4 || !hasSelected) then [IceTie.AgentSelector.c "pingCandidate"] else [])
+             ++ [IceTie.AgentSelector.c "customHandler"]))) ∧
+    (∀ (a : Agent) (m : Msg) (id : Nat) (p : Pair), (m.useCand || m.nom.isSome) = true → a.cfg.lite = false →
+      a.pairById id = some p → (p.state == PairState.succeeded) = false →
+      cldNominate a m id =
+        if m.nom.isSome || p.deferredNom.isNone then
+          (a.modPair id fun p => { p with nomOnSuccess := true, deferredNom := m.nom }, [])
+        else (a, [])) :=
+  ⟨IceTie.AgentSelector.cldHandleBindingRequest_tie hasPair useCand hasNomAttr nomParseErr accepted lite pairState switchOk
+     hasDeferred hasSelected,
+   fun a m id p hn hl hp hs => IceTie.AgentSelector.cldNominate_not_succeeded a m id p hn hl hp hs⟩
+
+/-- non-vacuity: a value-less nomination on a not-yet-valid pair that holds a deferred value changes nothing (fix dff2973); with a value
+it replaces the deferred one; a rejected renomination is only answered -/
+example : IceGen.controlledSelector_HandleBindingRequest true true false false true false 2 false true false
+      = [Eff.call "updateRequestReceived" [], Eff.call "shouldAcceptNomination" [], Eff.call "sendBindingSuccess" [],
+         Eff.call "pingCandidate" [], Eff.call "customHandler" []] ∧
+    IceGen.controlledSelector_HandleBindingRequest true false true false true false 2 false true false
+      = [Eff.call "updateRequestReceived" [], Eff.call "shouldAcceptNomination" [],
+         Eff.set "pair.nominateOnBindingSuccess" (Val.b true), Eff.set "pair.deferredNominationValue" (Val.s "nominationValue"),
+         Eff.call "sendBindingSuccess" [], Eff.call "pingCandidate" [], Eff.call "customHandler" []] ∧
+    IceGen.controlledSelector_HandleBindingRequest true false true false false false 4 true false true
+      = [Eff.call "updateRequestReceived" [], Eff.call "shouldAcceptNomination" [], Eff.call "sendBindingSuccess" []] := by decide
 
 end IceProps.C20
